@@ -62,7 +62,9 @@ P = {
                 "internal/handler/proxy/request_context.go", "internal/handler/proxy/service.go",
                 "internal/handler/envoyextauth/grpcv3/service.go", "internal/handler/envoyextauth/grpcv3/handler.go",
                 "internal/handler/envoyextauth/grpcv3/request_context.go",
-                "internal/handler/middleware/http/recovery/handler.go", "internal/handler/service/handler.go"],
+                "internal/handler/middleware/http/recovery/handler.go", "internal/handler/service/handler.go",
+                "internal/rules/composite_error_handler.go", "internal/rules/conditional_error_handler.go", "internal/rules/rule_impl.go",
+                "internal/config/serve.go"],
     "trusted": ["content negotiation (elnormous/contenttype) is an oracle in two roles: (model) the type the real translator itself negotiates "
                 "for the request, observed on a verbose probe failure through the public API (so a server-side order of preference is not "
                 "part of the model); (specification) what the Accept header admits = the most preferred acceptable types by pairwise calls "
